@@ -505,20 +505,37 @@ def index_guard(ctx):
 def sequence_views(ctx):
     p = ctx.program
     u = ctx.unit('core.Path.__eq__')
-    cmps = [n for n in u.own_nodes() if isinstance(n, ast.Compare) and isinstance(n.ops[0], ast.Eq)]
-    texts = sorted(norm(c) for c in cmps)
-    ctx.ob(texts == ['self.path_t.__ops__ == other.__ops__', 'self.path_t.__ops__ == other.path_t.__ops__'], u,
-           'Paths are equal to Paths / T expressions with the same op tuple: %s' % texts)
-    last = u.node.body[-1]
-    ctx.ob(isinstance(last, ast.Return) and isinstance(last.value, ast.Constant) and last.value.value is False, u, 'and to nothing else')
+    from ..util import decision_function, Undecidable
+    import itertools
+    other = u.params[1]
+    P, T_ = 'type(%s) is Path' % other, 'type(%s) is TType' % other
+    want = {(True, False): 'self.path_t.__ops__ == %s.path_t.__ops__' % other,
+            (False, True): 'self.path_t.__ops__ == %s.__ops__' % other, (False, False): 'False'}
+    try:
+        atoms, decide = decision_function(u)
+        ok = set(atoms) == {P, T_}
+        got = {}
+        if ok:
+            for k in want:
+                got[k] = decide({P: k[0], T_: k[1]})
+                ok = ok and got[k] == ('return', want[k])
+        detail = '' if ok else 'conditions %s, outcomes %s' % (atoms, got)
+    except Undecidable as e:
+        ok, detail = False, 'not a decision over the type of the other operand: %s' % e
+    ctx.ob(ok, u, 'a Path equals a Path / T expression with the same op tuple', detail)
+    ctx.ob(ok, u, 'and nothing else', detail)
     nu = ctx.unit('core.Path.__ne__')
     ctx.ob(norm(nu.node.body[-1]) == 'return not self == other', nu, '!= is the negation of ==')
     su = ctx.unit('core.Path.startswith')
-    r = [n for n in su.node.body if isinstance(n, ast.Return)]
-    ok = len(r) == 1 and matches(r[0].value, 'self.path_t.__ops__[:len($o)] == $o')
+    scfg = ctx.cfg(su)
+    r = [n for n in su.own_nodes() if isinstance(n, ast.Return) and not (isinstance(n.value, ast.Constant))]
+    ok = len(r) == 1
     if ok:
-        ov = match(r[0].value, 'self.path_t.__ops__[:len($o)] == $o')['o']
-        ok = any(matches(n, '%s = $x.__ops__' % ov) for n in su.node.body if isinstance(n, ast.Assign))
+        b = match(r[0].value, 'self.path_t.__ops__[:len($o)] == $o')
+        ok = b is not None
+        if ok:
+            ds = [v for _, v in scfg.reaching_defs(scfg.node_of(r[0]), b['o'])]
+            ok = bool(ds) and all(isinstance(v, ast.Attribute) and v.attr == '__ops__' for v in ds)
     ctx.ob(ok, su, 'startswith compares the op-tuple prefix: %s' % [norm(x) for x in r])
     iu = ctx.unit('core.Path.items')
     r = [n for n in iu.node.body if isinstance(n, ast.Return)]
@@ -527,9 +544,11 @@ def sequence_views(ctx):
     ctx.ob(ok, iu, 'items() pairs each op with its argument, as a tuple')
     fu = ctx.unit('core.Path.from_t')
     st = [n for n in fu.own_nodes() if isinstance(n, ast.Assign) and isinstance(n.targets[0], ast.Attribute) and n.targets[0].attr == '__ops__']
-    ok = len(st) == 1 and matches(st[0].value, '(T,) + $tp[1:]')
+    fcfg = ctx.cfg(fu)
+    sv = deref(fcfg, fcfg.node_of(st[0]), st[0].value) if len(st) == 1 else None
+    ok = sv is not None and matches(sv, '(T,) + $tp[1:]')
     if ok:
-        tp = match(st[0].value, '(T,) + $tp[1:]')['tp']
+        tp = match(sv, '(T,) + $tp[1:]')['tp']
         ok = any(matches(n, '%s = self.path_t.__ops__' % tp) for n in fu.node.body if isinstance(n, ast.Assign))
     ctx.ob(ok, fu, 'from_t re-roots the same steps at T: %s' % [norm(s_) for s_ in st])
     gu = ctx.unit('core.Path.glomit')
